@@ -18,7 +18,9 @@ let show_sres (r : pres) : string = match r with
   | SInfo i -> "I " ^ show_pinfo i
   | SStr s -> "S " ^ tok_of_str s
   | SBytes b -> Printf.sprintf "B %d %s nil" (List.length b) (tok_of_str b)
-  | SInfos l -> Printf.sprintf "IS %s nil" (String.concat "," (List.map show_pinfo l))
+  | SInfos l ->
+      let ty (i : finfo) = (int_of_n i.fi_mode) land ((1 lsl 31) lor (1 lsl 27)) in
+      Printf.sprintf "IS %s nil" (String.concat "," (List.map (fun i -> Printf.sprintf "%s:%d" (tok_of_str i.fi_name) (ty i)) l))
 
 let world_of (w : sworld) : world =
   let v = w.sw_sv.sv_view in
